@@ -365,7 +365,7 @@ def doCopyMove (t : Tree) (r : Req) : Nat × Tree :=
   else if r.ow == .bad then (400, t)
   else match r.dst with
   | .absent => (400, t)
-  | .bad s => (s, t)
+  | .bad s => (max s 400, t)                         -- (400 / 502 from the Destination parser)
   | .ok dst =>
     if nested r.src dst then (403, t)
     else match lstat t r.src with
